@@ -235,22 +235,30 @@ structure Clock where
   now : Nat            -- Unix seconds of time.Now()
   hundredths : Nat
 
+/-- descriptor body up to (not including) the creation timestamp -/
+def descBodyPre (joliet : Bool) (volumeName : Bytes) (volSectors : Nat) (ptBytes : Nat)
+    (lLoc mLoc : Nat) (rootRec : DirRec) : Bytes :=
+  let volId := (mangleUpper Gen.fs_dCharacters volumeName joliet).take 32
+  [0] ++ padTo (mangleUpper Gen.fs_aCharacters [108, 105, 110, 117, 120] joliet) 32 32 ++   -- runtime.GOOS = "linux"
+  padTo volId 32 32 ++ zeros 8 ++ lsbmsb 4 volSectors ++
+  padTo (if joliet then [37, 47, 64] else []) 32 0 ++
+  lsbmsb 2 1 ++ lsbmsb 2 1 ++ lsbmsb 2 sectorSize ++ lsbmsb 4 ptBytes ++
+  leN 4 lLoc ++ leN 4 0 ++ beN 4 mLoc ++ beN 4 0 ++
+  padTo rootRec.encode 34 0 ++
+  padTo volId 128 32 ++ padTo [] 128 32 ++ padTo [] 128 32 ++
+  padTo [112, 115, 51, 110, 101, 116, 115, 114, 118] 128 32 ++        -- "ps3netsrv"
+  padTo [] 37 32 ++ padTo [] 37 32 ++ padTo [] 37 32
+
+/-- … and after the modification timestamp: expiration, effective (both unset), version, reserved, application use -/
+def descBodyPost : Bytes := volTimeZero ++ volTimeZero ++ [1, 0] ++ zeros 512
+
+def descHeader (typ : Nat) : Bytes := [UInt8.ofNat typ] ++ Gen.fs_standardIdentifierBytes.map UInt8.ofNat ++ [1]
+
 def volumeDescriptor (typ : Nat) (joliet : Bool) (volumeName : Bytes) (volSectors : Nat) (ptBytes : Nat)
     (lLoc mLoc : Nat) (rootRec : DirRec) (clk : Clock) : Bytes :=
-  let volId := (mangleUpper Gen.fs_dCharacters volumeName joliet).take 32
-  let body : Bytes :=
-    [0] ++ padTo (mangleUpper Gen.fs_aCharacters [108, 105, 110, 117, 120] joliet) 32 32 ++   -- runtime.GOOS = "linux"
-    padTo volId 32 32 ++ zeros 8 ++ lsbmsb 4 volSectors ++
-    padTo (if joliet then [37, 47, 64] else []) 32 0 ++
-    lsbmsb 2 1 ++ lsbmsb 2 1 ++ lsbmsb 2 sectorSize ++ lsbmsb 4 ptBytes ++
-    leN 4 lLoc ++ leN 4 0 ++ beN 4 mLoc ++ beN 4 0 ++
-    padTo rootRec.encode 34 0 ++
-    padTo volId 128 32 ++ padTo [] 128 32 ++ padTo [] 128 32 ++
-    padTo [112, 115, 51, 110, 101, 116, 115, 114, 118] 128 32 ++        -- "ps3netsrv"
-    padTo [] 37 32 ++ padTo [] 37 32 ++ padTo [] 37 32 ++
-    volTime clk.now clk.hundredths ++ volTime clk.now clk.hundredths ++ volTimeZero ++ volTimeZero ++
-    [1, 0] ++ zeros 512
-  [UInt8.ofNat typ] ++ Gen.fs_standardIdentifierBytes.map UInt8.ofNat ++ [1] ++ padTo body (sectorSize - 7) 0
+  descHeader typ ++
+  padTo (descBodyPre joliet volumeName volSectors ptBytes lLoc mLoc rootRec ++
+         (volTime clk.now clk.hundredths ++ (volTime clk.now clk.hundredths ++ descBodyPost))) (sectorSize - 7) 0
 
 def terminatorDescriptor : Bytes :=
   [255] ++ Gen.fs_standardIdentifierBytes.map UInt8.ofNat ++ [1] ++ zeros (sectorSize - 7)
@@ -315,67 +323,117 @@ def titleIdKey : Bytes := [84, 73, 84, 76, 69, 95, 73, 68]
 
 def scanFuel : Nat := 100000
 
-/-- NewVirtualISO(fs, root, ps3Mode); `filler` are the 0x1C0 random bytes of PS3 sector 1 -/
-def build (w : World) (root : Path) (ps3 : Bool) (clk : Clock) (filler : Bytes) : Option Image :=
+/-- everything about an image that does not depend on the clock or on randomness -/
+structure Layout where
+  items : List DirItem
+  rootLen : Nat
+  volumeName : Bytes
+  gameCode : Bytes
+  ptSecs : Nat
+  ptJSecs : Nat
+  isoLBA : Nat
+  jolietLBA : Nat
+  filesLBA : Nat
+  volumeSize : Nat       -- sectors up to the end of the last file
+  padSectors : Nat
+  volSectors : Nat
+
+/-- TITLE_ID of PS3_GAME/PARAM.SFO (PS3 mode only); none = the open fails -/
+def gameCodeOf (w : World) (root : Path) (ps3 : Bool) : Option Bytes :=
+  if ps3 then
+    match w.stat (root ++ paramSfoPath) with
+    | some (_, .file i) =>
+      match w.inode? i with
+      | some f =>
+        match sfoField f.content.all titleIdKey with
+        | some c => if c.length < 4 || c.length > 31 then none else some c
+        | none => none
+      | none => none
+    | _ => none
+  else some []
+
+/-- calculateSizes: at least one pad granule, and the volume ends on a granule boundary -/
+def padSectorsFor (volumeSize : Nat) : Nat :=
+  Gen.fs_basePadSectors +
+    (if volumeSize % Gen.fs_basePadSectors > 0 then Gen.fs_basePadSectors - volumeSize % Gen.fs_basePadSectors else 0)
+
+/-- buildFSStructures up to calculateSizes: scan and LBA arithmetic -/
+def layoutOf (w : World) (root : Path) (ps3 : Bool) : Option Layout :=
   match w.stat root with
   | some (_, .dir _) =>
-    -- PS3 mode: TITLE_ID from PS3_GAME/PARAM.SFO
-    let gameCode? : Option Bytes :=
-      if ps3 then
-        match w.stat (root ++ paramSfoPath) with
-        | some (_, .file i) =>
-          match w.inode? i with
-          | some f =>
-            match sfoField f.content.all titleIdKey with
-            | some c => if c.length < 4 || c.length > 31 then none else some c
-            | none => none
-          | none => none
-        | _ => none
-      else some []
-    match gameCode? with
+    match gameCodeOf w root ps3 with
     | none => none
     | some gameCode =>
       match scan w scanFuel [root] [] 0 with
       | none => none
       | some (items, filesSectors) =>
         let rootLen := root.length
-        let volumeName : Bytes := if ps3 then Gen.fs_ps3ModeVolumeName else root.getLast?.getD []
-        let pt0 := pathTable items rootLen false 0
-        let ptJ0 := pathTable items rootLen true 0
-        let ptSecs := sectors (ptSize pt0)
-        let ptJSecs := sectors (ptSize ptJ0)
+        let ptSecs := sectors (ptSize (pathTable items rootLen false 0))
+        let ptJSecs := sectors (ptSize (pathTable items rootLen true 0))
         let isoLBA := 16 + 3 + 1 + ptSecs * 2 + ptJSecs * 2
         let jolietLBA := isoLBA + (dirSectors items false).sum
         let filesLBA := jolietLBA + (dirSectors items true).sum
         let volumeSize := filesLBA + filesSectors
-        let padSectors := Gen.fs_basePadSectors +
-          (if volumeSize % Gen.fs_basePadSectors > 0 then Gen.fs_basePadSectors - volumeSize % Gen.fs_basePadSectors else 0)
-        let volSectors := volumeSize + padSectors
-        let recsOf (joliet : Bool) (dirLBA : Nat) : List (List DirRec) :=
-          (List.range items.length).filterMap (fun k => items[k]?.map (finalRecs items rootLen joliet dirLBA filesLBA k))
-        let isoRecs := recsOf false isoLBA
-        let jolRecs := recsOf true jolietLBA
-        let rootRec (rs : List (List DirRec)) : DirRec := ((rs.head?.bind (·.head?)).getD ⟨0, 0, [], 0, []⟩)
-        let ptL := 16 + 3 + 1
-        let pvd := volumeDescriptor 1 false volumeName volSectors (ptSize pt0) ptL (ptL + ptSecs) (rootRec isoRecs) clk
-        let svd := volumeDescriptor 2 true volumeName volSectors (ptSize ptJ0) (ptL + 2 * ptSecs) (ptL + 2 * ptSecs + ptJSecs)
-          (rootRec jolRecs) clk
-        let sysArea : Bytes :=
-          if ps3 then
-            padTo (beN 4 1 ++ zeros 4 ++ beN 4 0 ++ beN 4 (volSectors - 1)) sectorSize 0 ++
-            padTo (padTo Gen.fs_consoleID 16 32 ++ padTo (gameCode.take 4 ++ [45] ++ gameCode.drop 4) 32 32 ++ zeros 16 ++
-              padTo (filler.take 0x1C0) 0x1C0 0) sectorSize 0 ++
-            zeros (14 * sectorSize)
-          else zeros (16 * sectorSize)
-        let pt := pathTable items rootLen false isoLBA
-        let ptJ := pathTable items rootLen true jolietLBA
-        let fsBuf := sysArea ++ pvd ++ svd ++ terminatorDescriptor ++ zeros sectorSize ++
-          encodePt pt false ++ encodePt pt true ++ encodePt ptJ false ++ encodePt ptJ true ++
-          (isoRecs.map encodeRecs).flatten ++ (jolRecs.map encodeRecs).flatten
-        let files := ((items.map (·.files)).flatten.filter (fun f => f.size != 0)).map
-          (fun f => (⟨f.ino, f.size, f.rLBA + filesLBA⟩ : FileExt))
-        some ⟨fsBuf, files, volumeSize * sectorSize, padSectors * sectorSize, volSectors * sectorSize⟩
+        let padSectors := padSectorsFor volumeSize
+        some { items := items, rootLen := rootLen,
+               volumeName := if ps3 then Gen.fs_ps3ModeVolumeName else root.getLast?.getD [],
+               gameCode := gameCode, ptSecs := ptSecs, ptJSecs := ptJSecs, isoLBA := isoLBA, jolietLBA := jolietLBA,
+               filesLBA := filesLBA, volumeSize := volumeSize, padSectors := padSectors,
+               volSectors := volumeSize + padSectors }
   | _ => none
+
+def Layout.recsOf (L : Layout) (joliet : Bool) (dirLBA : Nat) : List (List DirRec) :=
+  (List.range L.items.length).filterMap (fun k =>
+    L.items[k]?.map (finalRecs L.items L.rootLen joliet dirLBA L.filesLBA k))
+
+def rootRecOf (rs : List (List DirRec)) : DirRec := ((rs.head?.bind (·.head?)).getD ⟨0, 0, [], 0, []⟩)
+
+/-- PS3 sector 0: one plain region covering the whole volume -/
+def rangesSector (L : Layout) : Bytes :=
+  padTo (beN 4 1 ++ zeros 4 ++ beN 4 0 ++ beN 4 (L.volSectors - 1)) sectorSize 0
+
+/-- PS3 sector 1 before the random filler: console id, product code XXXX-YYYYY, 16 zero bytes -/
+def infoHead (L : Layout) : Bytes :=
+  padTo Gen.fs_consoleID 16 32 ++ padTo (L.gameCode.take 4 ++ [45] ++ L.gameCode.drop 4) 32 32 ++ zeros 16
+
+/-- sectors 0–15: PS3 disc-range and disc-info sectors, or zeros -/
+def sysArea (L : Layout) (ps3 : Bool) (filler : Bytes) : Bytes :=
+  if ps3 then
+    rangesSector L ++ (padTo (infoHead L ++ padTo (filler.take 0x1C0) 0x1C0 0) sectorSize 0 ++ zeros (14 * sectorSize))
+  else zeros (16 * sectorSize)
+
+def ptL : Nat := 16 + 3 + 1
+
+def pvdOf (L : Layout) (clk : Clock) : Bytes :=
+  volumeDescriptor 1 false L.volumeName L.volSectors (ptSize (pathTable L.items L.rootLen false 0)) ptL (ptL + L.ptSecs)
+    (rootRecOf (L.recsOf false L.isoLBA)) clk
+
+def svdOf (L : Layout) (clk : Clock) : Bytes :=
+  volumeDescriptor 2 true L.volumeName L.volSectors (ptSize (pathTable L.items L.rootLen true 0))
+    (ptL + 2 * L.ptSecs) (ptL + 2 * L.ptSecs + L.ptJSecs) (rootRecOf (L.recsOf true L.jolietLBA)) clk
+
+/-- everything after the three descriptors and the blank sector: path tables and directories -/
+def tablesAndDirs (L : Layout) : Bytes :=
+  let pt := pathTable L.items L.rootLen false L.isoLBA
+  let ptJ := pathTable L.items L.rootLen true L.jolietLBA
+  encodePt pt false ++ encodePt pt true ++ encodePt ptJ false ++ encodePt ptJ true ++
+  ((L.recsOf false L.isoLBA).map encodeRecs).flatten ++ ((L.recsOf true L.jolietLBA).map encodeRecs).flatten
+
+/-- writeFSStructures: the in-memory metadata area -/
+def metaBytes (L : Layout) (ps3 : Bool) (clk : Clock) (filler : Bytes) : Bytes :=
+  sysArea L ps3 filler ++ pvdOf L clk ++ svdOf L clk ++ terminatorDescriptor ++ zeros sectorSize ++ tablesAndDirs L
+
+/-- collectFiles: the non-empty files in layout order -/
+def Layout.files (L : Layout) : List FileExt :=
+  ((L.items.map (·.files)).flatten.filter (fun f => f.size != 0)).map
+    (fun f => (⟨f.ino, f.size, f.rLBA + L.filesLBA⟩ : FileExt))
+
+def imageOf (L : Layout) (ps3 : Bool) (clk : Clock) (filler : Bytes) : Image :=
+  ⟨metaBytes L ps3 clk filler, L.files, L.volumeSize * sectorSize, L.padSectors * sectorSize, L.volSectors * sectorSize⟩
+
+/-- NewVirtualISO(fs, root, ps3Mode); `filler` are the 0x1C0 random bytes of PS3 sector 1 -/
+def build (w : World) (root : Path) (ps3 : Bool) (clk : Clock) (filler : Bytes) : Option Image :=
+  (layoutOf w root ps3).map (fun L => imageOf L ps3 clk filler)
 
 /-! ### reads -/
 
@@ -405,9 +463,9 @@ def Image.read (img : Image) (cf : Nat → Content) (off n : Nat) : Bytes :=
       -- filesToRead: the file whose padded extent contains the sector of off1, and its successors
       let target := off1 / sectorSize
       let fs := img.files.dropWhile (fun f => target ≥ f.lba + sectors f.size)
-      match fs with
-      | f :: _ => if target < f.lba then [] else readFiles cf fs off1 rem1
-      | [] => []
+      if fs.isEmpty then []
+      else if target < (fs.head?.map (·.lba)).getD 0 then []   -- "file location greater than offset": cannot happen
+      else readFiles cf fs off1 rem1
     else []
   let off2 := off1 + part2.length
   let rem2 := rem1 - part2.length
@@ -416,5 +474,40 @@ def Image.read (img : Image) (cf : Nat → Content) (off n : Nat) : Bytes :=
       zeros (min (img.padAreaSize - (off2 - img.padAreaStart)) rem2)
     else []
   part1 ++ part2 ++ part3
+
+end Ps3.Viso
+
+namespace Ps3.Viso
+
+/-! ### Read / Seek / ReadAt as the afero.File methods expose them -/
+
+inductive Op where
+  | readAt (n : Nat) (off : Nat)
+  | read (n : Nat)
+  | seek (off : Int) (whence : Nat)
+
+inductive Obs where
+  | data (b : Bytes) (eof : Bool)     -- bytes returned; eof = the call reported io.EOF
+  | pos (p : Nat)                      -- successful Seek
+  | err                                -- failed Seek
+deriving DecidableEq
+
+/-- one call against a byte source with a cursor: `rd` is the positioned read, `total` the size -/
+def stepOp (rd : Nat → Nat → Bytes) (total : Nat) (cur : Nat) : Op → Nat × Obs
+  | .readAt n off => (cur, .data (rd off n) (off ≥ total ∨ n == 0))
+  | .read n => let d := rd cur n; (cur + d.length, .data d (cur ≥ total ∨ n == 0))
+  | .seek off whence =>
+    let target : Option Int :=
+      if whence == 0 then some off
+      else if whence == 1 then some (off + cur)
+      else if whence == 2 then some ((total : Int) + off)
+      else none
+    match target with
+    | none => (cur, .err)
+    | some t => if t < 0 ∨ t > total then (cur, .err) else (t.toNat, .pos t.toNat)
+
+def runOps (rd : Nat → Nat → Bytes) (total : Nat) : Nat → List Op → List Obs
+  | _, [] => []
+  | cur, op :: rest => let r := stepOp rd total cur op; r.2 :: runOps rd total r.1 rest
 
 end Ps3.Viso
